@@ -168,6 +168,26 @@ def run (cfg : Cfg) : (Nat → Sev) → List Op → List Event
   | th, .stmt sev tag items named :: rest => statement cfg th sev tag items named ++ run cfg th rest
   | th, .overlap sa ta is sb tb js :: rest => overlap cfg th sa ta is sb tb js ++ run cfg th rest
 
+/-- A callable may itself reconfigure the logger: here, a callable with id `900 + n` sets threshold 0 to
+`n` when it is called.  `thAfter th evs` is the threshold table after the callables in `evs` ran. -/
+def thAfter (th : Nat → Sev) (evs : List Event) : Nat → Sev :=
+  evs.foldl (fun th e => match e with
+    | .lazyCall id => if id ≥ 900 then (fun k => if k = 0 then id - 900 else th k) else th
+    | _ => th) th
+
+/-- `run` with such callables: a statement runs under the thresholds in force when it starts (its filter
+is evaluated once, at construction — a change made by one of its own callables does not touch it), the
+next operation under whatever its callables left behind. -/
+def runT (cfg : Cfg) : (Nat → Sev) → List Op → List Event
+  | _, [] => []
+  | th, .setThr n s :: rest => runT cfg (fun k => if k = n then s else th k) rest
+  | th, .stmt sev tag items named :: rest =>
+    let evs := statement cfg th sev tag items named
+    evs ++ runT cfg (thAfter th evs) rest
+  | th, .overlap sa ta is sb tb js :: rest =>
+    let evs := overlap cfg th sa ta is sb tb js
+    evs ++ runT cfg (thAfter th evs) rest
+
 /-- the type of `logger::<sev>()` is `null_stream` iff the severity is below the compile-time minimum -/
 def streamIsNull (minSev sev : Sev) : Bool := decide (sev < minSev)
 
